@@ -16,11 +16,13 @@ corrupted or deleted while the engine is down, provider cursors expiring, new pr
   walk_precedes_events        while need_walk is set no feed event is processed (unless a final stop was requested)
   do_returns                  every do() terminates
 
-  walk_survives_restart       "a walk that became due is not forgotten, wherever the engine is stopped" - FALSE on the
-                              code as it is (need_walk is not persisted): kernel-checked counterexamples
-                              `walk_lost_after_rejected_cursor`, `walk_lost_after_missing_cursor`;
-                              proved as `walk_survives_restart_partial` for runs in which no stop falls into the window
-                              {need_walk set in memory, walk marker and integer cursor stored}.
+  walk_survives_restart       a walk that became due (cursor re-seeded from the provider, or the entries dropped) is never
+                              forgotten, wherever the engine is stopped - at full strength, for the code as repaired by
+                              `fix: … need_walk did not survive a restart` (the stored walk marker is deleted before a
+                              re-seeded cursor is persisted).  On the code before that fix the statement was false (two
+                              kernel-checked counterexamples, known findings need-walk-not-persisted/*, now `fixed:`); the
+                              same two action sequences are kept here as regression witnesses: they now end in a walk.
+  former_window_unreachable   the state {need_walk in memory, walk marker and integer cursor stored} cannot be reached any more
 
 Part B: the end-to-end verdicts the engine-level monitor (Driver/MonC06.lean) computes (Model/Spec/Restart.lean).
 -/
@@ -126,7 +128,7 @@ theorem walk_when_cursor_missing_walks (s : St) (hs : Reachable s) (hcfg : s.cfg
 
 /-- **walk_when_cursor_rejected.**  The engine is down, storage holds a cursor the provider rejects (not an
     integer, or expired).  The new engine's first do() delivers nothing, resets the provider to its newest
-    position, persists that position and sets `need_walk`; its second do() completes a full walk (marker
+    position, deletes the stored walk marker, persists that position and sets `need_walk`; its second do() completes a full walk (marker
     written, no walk due any more) and drains the feed. -/
 theorem walk_when_cursor_rejected (s : St) (hs : Reachable s) (hcfg : s.cfg ≠ .noRoot) (v : CVal)
     (hdown : s.mem = none) (hc : s.store.cursor = some v) (hrej : s.prov.accept? v = none)
@@ -134,7 +136,7 @@ theorem walk_when_cursor_rejected (s : St) (hs : Reachable s) (hcfg : s.cfg ≠ 
     let s1 := doAll (apply s .start)
     let s2 := doAll s1
     (∃ m1, s1.mem = some m1 ∧ m1.needWalk = true ∧ m1.pc = .idle) ∧
-    s1.store.cursor = some (.int s.prov.latest) ∧ s1.ghost.fresh = [] ∧
+    s1.store.cursor = some (.int s.prov.latest) ∧ s1.store.walked = false ∧ s1.ghost.fresh = [] ∧
     s2.pcIdle = true ∧ s2.store.walked = true ∧ s2.ghost.walkDue = false ∧
     (∀ m2, s2.mem = some m2 → m2.needWalk = false) ∧ s.prov.latest ≤ s2.prov.cur := by
   intro s1 s2
@@ -160,7 +162,7 @@ theorem walk_when_cursor_rejected (s : St) (hs : Reachable s) (hcfg : s.cfg ≠ 
   obtain ⟨m', h1, h2, h3, h4, h5, h6, h7, h8, h9, h10⟩ :=
     doAll_accepted s1 _ s.prov.latest hinv1 hm1 hval rfl hst hfd rfl (by rw [hp1]; exact hinv.g3) WalkDone
       walkDone_step (Or.inl ⟨_, s1.prov.objs, rfl, by simp [afterInit, hro]⟩)
-  refine ⟨⟨_, hm1, rfl, rfl⟩, by rw [hs1], by rw [hs1], by simp [s2, St.pcIdle, h1, h2], ?_⟩
+  refine ⟨⟨_, hm1, rfl, rfl⟩, by rw [hs1], by rw [hs1]; simp [hro], by rw [hs1], by simp [s2, St.pcIdle, h1, h2], ?_⟩
   rcases h10 with ⟨m1, k, hm1', hk⟩ | ⟨hw, hd, hn⟩
   · rw [h1] at hm1'
     simp only [Option.some.injEq] at hm1'
@@ -173,7 +175,8 @@ theorem walk_when_cursor_rejected (s : St) (hs : Reachable s) (hcfg : s.cfg ≠ 
     completed - unless a final stop was requested (then the walk loop is left and the object dies). -/
 theorem walk_precedes_events (s : St) (hs : Reachable s) (m : Mem) (hm : s.mem = some m)
     (hro : m.rootOid = true) (hnw : m.needWalk = true) (hst : m.stopping = false) :
-    m.pc = .idle ∨ m.pc = .firstInit ∨ (∃ k, m.pc = .walkItem k) ∨ m.pc = .errReset ∨ m.pc = .errSave := by
+    m.pc = .idle ∨ m.pc = .firstInit ∨ m.pc = .seedSave ∨ (∃ k, m.pc = .walkItem k) ∨ m.pc = .errReset ∨
+      m.pc = .errForget ∨ m.pc = .errSave := by
   have h := ((reachable_inv hs).up m hm).u9 hro hnw hst
   cases hpc : m.pc <;> simp_all [PC.preWalk]
 
@@ -183,18 +186,7 @@ theorem do_returns (s : St) : (doAll s).pcIdle = true := by
   simp only [doAll]
   exact finish_idle _ _ (Nat.le_refl _)
 
-/-! ### walk_survives_restart
-
-Full statement - "a walk that has become due (the cursor was re-seeded from the provider, or the entries
-were dropped) is never forgotten, wherever the engine is stopped":
-
-    theorem walk_survives_restart (cfg ≠ noRoot) (acts) : NoLost (run (init cfg n p objs r) acts)
-
-is FALSE on the code as it is: `need_walk` lives only in the EventManager object while the walk marker of an
-earlier run is still stored, and the re-seeded cursor is persisted before the walk runs (event.py:185-187 for a
-rejected cursor, 211-214 for a missing one).  A stop inside that window makes the next engine start with a
-usable cursor and a walk marker: it does not walk, and the events between the old and the new cursor are never
-delivered. -/
+/-! ### walk_survives_restart -/
 
 /-- decidable form of "a due walk has been forgotten" -/
 def lostB (s : St) : Bool :=
@@ -213,91 +205,92 @@ theorem lostB_iff (s : St) : lostB s = true ↔ ¬ NoLost s := by
     cases hv : m.validated <;> cases hc : s.store.cursor <;> cases hw : s.store.walked <;>
       cases hn : m.needWalk <;> cases hf : m.firstDo <;> simp_all
 
-/-- the first run: new engine, root validated, first do() (cursor seeded, walk of one object, marker, the one
-    feed event, cursor saved), engine stopped -/
-def firstRun : List Act :=
-  [.start, .setRoot, .callDo, .step, .step, .step, .step, .step, .step, .step, .step, .stop]
-
-/-- the replay of the known finding: synced, engine down, a user operation, the stored cursor becomes
-    unacceptable, new engine, one do() (the CloudCursorError path), engine stopped again -/
-def lostAfterRejected : List Act :=
-  firstRun ++ [.user 2, .corrupt, .start, .callDo, .step, .step, .step, .stop]
-
-/-- the sibling: the cursor row is deleted, a new provider object stands at the newest position, the new engine's
-    first do() is stopped after it persisted the position and before the walk completed -/
-def lostAfterMissing : List Act :=
-  firstRun ++ [.user 2, .delCursor, .provCur 1, .start, .callDo, .step, .stop]
-
-/-- counterexample 1 (kernel-checked): the walk is due and nothing will trigger it -/
-theorem walk_lost_after_rejected_cursor :
-    ¬ NoLost (run (init .pathOnly 1 (-1) 1 false) lostAfterRejected) := by
-  rw [← lostB_iff]; decide
-
-/-- … and the next engine indeed goes idle without a walk and without ever delivering event 1 -/
-theorem walk_lost_after_rejected_cursor_outcome :
-    let s := doAll (apply (run (init .pathOnly 1 (-1) 1 false) lostAfterRejected) .start)
-    s.pcIdle = true ∧ s.ghost.fresh = [] ∧ s.store.cursor = some (.int 1) ∧ (1 : Int) ∉ s.store.log ∧
-      s.prov.cur = s.prov.latest := by
-  decide
-
-/-- counterexample 2 (kernel-checked) -/
-theorem walk_lost_after_missing_cursor :
-    ¬ NoLost (run (init .pathOnly 1 (-1) 1 false) lostAfterMissing) := by
-  rw [← lostB_iff]; decide
-
-theorem walk_lost_after_missing_cursor_outcome :
-    let s := doAll (apply (run (init .pathOnly 1 (-1) 1 false) lostAfterMissing) .start)
-    s.pcIdle = true ∧ s.ghost.fresh = [] ∧ s.store.cursor = some (.int 1) ∧ (1 : Int) ∉ s.store.log := by
-  decide
-
-/-- both counterexamples stop inside the window (so they are outside the partial theorem, as they must be) -/
-theorem counterexamples_stop_in_window :
-    ¬ StopsOutsideWindow (init .pathOnly 1 (-1) 1 false) lostAfterRejected ∧
-    ¬ StopsOutsideWindow (init .pathOnly 1 (-1) 1 false) lostAfterMissing := by
-  constructor <;>
-  · simp only [lostAfterRejected, lostAfterMissing, firstRun, List.cons_append, List.nil_append, StopsOutsideWindow,
-      Window]
-    simp [apply, init, validateRoot, newMem, stepUp, afterInit, deliver, Prov.accept?]
-
-theorem nolost_run (s : St) (acts : List Act) (hinv : Inv s) (hcfg : s.cfg ≠ .noRoot) (hn : NoLost s)
-    (hw : StopsOutsideWindow s acts) : NoLost (run s acts) := by
+theorem nolost_run (s : St) (acts : List Act) (hinv : Inv s) (hcfg : s.cfg ≠ .noRoot) (hn : NoLost s) :
+    NoLost (run s acts) := by
   induction acts generalizing s with
   | nil => exact hn
   | cons a as ih =>
-    obtain ⟨hwa, hws⟩ := hw
-    exact ih (apply s a) (inv_apply s a hinv) (by rw [apply_cfg]; exact hcfg)
-      (nolost_apply s a hinv hcfg hn hwa) hws
+    exact ih (apply s a) (inv_apply s a hinv) (by rw [apply_cfg]; exact hcfg) (nolost_apply s a hinv hcfg hn)
 
-/-- **walk_survives_restart_partial.**  For every sequence of actions in which no stop falls into the window
-    {`need_walk` set in memory, walk marker stored, integer cursor stored}: whenever a walk is due, something
-    will trigger it - `need_walk` of the running engine, a cursor it will see rejected, or, with the engine down
-    or its root not validated yet, a missing cursor row / non-integer cursor / missing walk marker. -/
-theorem walk_survives_restart_partial (cfg : RootCfg) (hcfg : cfg ≠ .noRoot) (n : Nat) (p : Int) (objs : Nat)
-    (r : Bool) (acts : List Act) (hw : StopsOutsideWindow (init cfg n p objs r) acts) :
-    NoLost (run (init cfg n p objs r) acts) :=
-  nolost_run _ acts (inv_init cfg n p objs r) hcfg (by simp [NoLost, init]) hw
+/-- **walk_survives_restart.**  For every sequence of actions - stops between any two effects included: whenever a
+    walk is due (the stored cursor was re-seeded from the provider, or the entries were dropped, and no walk has
+    completed since), something will trigger it: `need_walk` of the running engine, a cursor it will see rejected on
+    its first do(), or - with the engine down or its root not validated yet - a missing cursor row, a non-integer
+    cursor, or a missing walk marker. -/
+theorem walk_survives_restart (cfg : RootCfg) (hcfg : cfg ≠ .noRoot) (n : Nat) (p : Int) (objs : Nat)
+    (r : Bool) (acts : List Act) : NoLost (run (init cfg n p objs r) acts) :=
+  nolost_run _ acts (inv_init cfg n p objs r) hcfg (by simp [NoLost, init])
 
-/-- the window is exactly where the defect bites: outside it a stop loses nothing (restated for one stop) -/
-theorem stop_outside_window_is_safe (s : St) (hs : Reachable s) (hcfg : s.cfg ≠ .noRoot) (hn : NoLost s)
-    (hw : ¬ Window s) : NoLost (apply s .stop) :=
-  nolost_apply s .stop (reachable_inv hs) hcfg hn (fun _ => hw)
+/-- the same for reachable states, with the consequence spelled out for an engine that is down: if a walk is due,
+    the next engine will set `need_walk` or meet a rejected cursor -/
+theorem walk_due_is_on_disk (s : St) (hs : Reachable s) (hcfg : s.cfg ≠ .noRoot) (hdown : s.mem = none)
+    (hd : s.ghost.walkDue = true) :
+    s.store.cursor = none ∨ s.store.cursor = some .bad ∨ s.store.walked = false := by
+  obtain ⟨cfg, n, p, objs, r, acts, rfl⟩ := hs
+  have hc : cfg ≠ .noRoot := by simpa [run_cfg, init] using hcfg
+  have h := walk_survives_restart cfg hc n p objs r acts hd
+  simpa [WalkPending, hdown] using h
+
+/-- **former_window_unreachable.**  The window of the former finding - `need_walk` only in memory while storage
+    holds a walk marker and an integer cursor - is empty for the repaired code. -/
+theorem former_window_unreachable (s : St) (hs : Reachable s) : ¬ FormerWindow s := by
+  rintro ⟨m, hm, hv, hro, hnw, hw, c, hc⟩
+  have hu := (reachable_inv hs).up m hm
+  rcases hu.u13 hv hro hnw with h | h
+  · simp [hw] at h
+  · rcases hu.u7 hv with h7 | h7
+    · simp [hc] at h7
+    · rw [h7, h] at hc
+      simp at hc
+
+/-- the first run: new engine, root validated, first do() (position taken, cursor persisted, walk of one object,
+    marker, the one feed event, cursor saved), engine stopped -/
+def firstRun : List Act :=
+  [.start, .setRoot, .callDo, .step, .step, .step, .step, .step, .step, .step, .step, .step, .stop]
+
+/-- the replay of the former finding need-walk-not-persisted/rejected-cursor: synced, engine down, a user
+    operation, the stored cursor becomes unacceptable, new engine, one do() (the CloudCursorError path), engine
+    stopped again -/
+def formerRejected : List Act :=
+  firstRun ++ [.user 2, .corrupt, .start, .callDo, .step, .step, .step, .step, .stop]
+
+/-- … and of need-walk-not-persisted/missing-cursor-stop-in-walk: the cursor row is deleted, a new provider object
+    stands at the newest position, the new engine's first do() is stopped after it persisted the position and
+    before the walk completed -/
+def formerMissing : List Act :=
+  firstRun ++ [.user 2, .delCursor, .provCur 1, .start, .callDo, .step, .step, .stop]
+
+/-- regression witness 1 (kernel-checked): after the former counterexample the walk marker is gone, and the next
+    engine walks (both objects offered) before it goes idle -/
+theorem former_rejected_now_walks :
+    let s := run (init .pathOnly 1 (-1) 1 false) formerRejected
+    let s' := doAll (apply s .start)
+    lostB s = false ∧ s.store.walked = false ∧ s.store.cursor = some (.int 1) ∧
+      s'.pcIdle = true ∧ s'.store.walked = true ∧ s'.ghost.walkDue = false ∧ s'.ghost.fresh = [.w, .w] := by
+  decide
+
+/-- regression witness 2 (kernel-checked) -/
+theorem former_missing_now_walks :
+    let s := run (init .pathOnly 1 (-1) 1 false) formerMissing
+    let s' := doAll (apply s .start)
+    lostB s = false ∧ s.store.walked = false ∧ s.store.cursor = some (.int 1) ∧
+      s'.pcIdle = true ∧ s'.store.walked = true ∧ s'.ghost.walkDue = false ∧ s'.ghost.fresh = [.w, .w] := by
+  decide
 
 instance (s : St) : Decidable (validatesAtStart s) := by unfold validatesAtStart; infer_instance
 
-/-- non-vacuity: a run with stops at awkward places (all outside the window) - the second engine is stopped after
-    it processed event 1 and before it saved the cursor, the third one delivers event 1 again; the hypotheses of
-    the theorems above are satisfiable -/
+/-- non-vacuity: a run with stops at awkward places - the second engine is stopped after it processed event 1 and
+    before it saved the cursor, the third one delivers event 1 again; the hypotheses of the theorems above are
+    satisfiable -/
 example :
     let w := init .pathOnly 1 (-1) 1 false
     let acts := firstRun ++ [.user 2, .start, .callDo, .step, .step, .step, .step, .step, .stop,
       .start, .callDo, .step, .step, .step, .step, .step, .step, .stop]
-    StopsOutsideWindow w acts ∧ (run w (firstRun ++ [.user 2, .start, .callDo, .step, .step, .step, .step, .step,
+    (run w (firstRun ++ [.user 2, .start, .callDo, .step, .step, .step, .step, .step,
         .stop])).store = { cursor := some (.int 0), walked := true, log := [1, 0] } ∧
       (run w acts).store = { cursor := some (.int 1), walked := true, log := [1, 1, 0] } ∧
       (run w acts).mem = none ∧ validatesAtStart (run w acts) ∧ (run w firstRun).prov.accept? .bad = none := by
-  refine ⟨?_, by decide, by decide, by decide, by decide, by decide⟩
-  simp only [firstRun, List.cons_append, List.nil_append, StopsOutsideWindow, Window]
-  simp [apply, init, validateRoot, newMem, stepUp, afterInit, deliver, Prov.accept?]
+  refine ⟨by decide, by decide, by decide, by decide, by decide⟩
 
 end CS.Event
 
